@@ -74,8 +74,17 @@ def run(ctx, rep):
         for c in fn.real_insts():
             if c.op == 'call' and c.callee == 'nsync_dll_remove_' and isinstance(c.ops[1], str):
                 ac = util.addr_class(mod, fn, c.ops[1])
-                # the thread's own waiter: &w->nw.q with w the result of nsync_waiter_new_
-                if ac['kind'] == 'call' and ac['inst'].callee == 'nsync_waiter_new_':
+                # the thread's own waiter: &w->nw.q with w the result of nsync_waiter_new_ - in this function, or in the caller that handed
+                # w to this static helper
+                own = ac['kind'] == 'call' and ac['inst'].callee == 'nsync_waiter_new_'
+                if not own and ac['kind'] == 'arg' and fn.internal:
+                    k = int(ac['arg'][1:])
+                    sites = [(g, i) for g in mod.defined.values() for i in g.real_insts() if i.op == 'call' and i.callee == fn.name and k < len(i.ops)]
+                    def from_new(g, ref):
+                        a2 = util.addr_class(mod, g, ref)
+                        return a2['kind'] == 'call' and a2['inst'].callee == 'nsync_waiter_new_' and not a2['path']
+                    own = bool(sites) and all(from_new(g, i.ops[k]) for g, i in sites)
+                if own:
                     gs = [n for n in (_norm_cmp(fn, cc, s) for cc, s in _guards(fn, c)) if n]
                     def fld(ref):
                         l = fn.imap.get(ref) if isinstance(ref, str) else None
